@@ -141,8 +141,13 @@ def dynamic_cases(tier: str) -> List[Dict[str, Any]]:
     return out
 
 
-def resolve(path: str, cwd: str) -> str:
-    return os.path.realpath(path if os.path.isabs(path) else os.path.join(cwd, path))
+def resolve(path: str, cwd: str, follow_last: bool = True) -> str:
+    """Where an operation on `path` lands. Opening a file follows a symbolic link in the last component; removing or renaming works on the
+    directory entry itself."""
+    p = path if os.path.isabs(path) else os.path.join(cwd, path)
+    if follow_last:
+        return os.path.realpath(p)
+    return os.path.join(os.path.realpath(os.path.dirname(p)), os.path.basename(p))
 
 
 def judge(st: Stats, case: Dict[str, Any]) -> None:
@@ -177,6 +182,17 @@ def judge(st: Stats, case: Dict[str, Any]) -> None:
                 with open(os.path.join(ws.out, name), "w", encoding="utf-8") as fh:
                     fh.write("user file " + name)
                 foreign["out/" + name] = hashlib.sha256(("user file " + name).encode()).hexdigest()
+            # ... and symbolic links named exactly like reports of this run, left behind after the reports were archived elsewhere: one to an existing
+            # file, one dangling. RP2 may replace the links (they are entries of the output directory); it may not touch what they point at
+            arch = os.path.join(ws.root, "archive")
+            os.makedirs(arch, exist_ok=True)
+            with open(os.path.join(arch, "archived_report.ods"), "w", encoding="utf-8") as fh:
+                fh.write("archived copy")
+            foreign["archive/archived_report.ods"] = hashlib.sha256(b"archived copy").hexdigest()
+            prefix = case["opts"][case["opts"].index("-p") + 1] if "-p" in case["opts"] else ""
+            for m in ("fifo", "lifo", "hifo", "lofo", "mixed"):
+                os.symlink(os.path.join(arch, "archived_report.ods"), os.path.join(ws.out, f"{prefix}{m}_rp2_full_report.ods"))
+                os.symlink(os.path.join(arch, "not_there.ods"), os.path.join(ws.out, f"{prefix}{m}_open_positions.ods"))
         before = snapshot(ws.root)
         for run_no in (1, 2):
             st.inc("evaluations")
@@ -198,7 +214,7 @@ def judge(st: Stats, case: Dict[str, Any]) -> None:
                 for p in paths:
                     if os.path.basename(p).startswith(".audit-") or p.isdigit():
                         continue
-                    rp = resolve(p, ws.cwd)
+                    rp = resolve(p, ws.cwd, follow_last=(ev == "open"))
                     if not (rp.startswith(allowed) or rp in allowed_dirs):
                         st.violation(dict(payload, signature=f"C18 write outside output / log directories / {ev}", what=f"{tag} run {run_no} (exit {res.exit}): {ev} on {p}"))
             after = snapshot(ws.root)
@@ -209,7 +225,7 @@ def judge(st: Stats, case: Dict[str, Any]) -> None:
                                       what=f"{tag} run {run_no} (exit {res.exit}): {k} is {'gone' if k not in after else 'modified'}"))
             for k in changed:
                 top = k.split("/")[0]
-                ok = top == "out" or k in ("out/",) or k.startswith("cwd/log/") or k == "cwd/log/"
+                ok = top == "out" or k in ("out/",) or k.startswith("cwd/log/") or k == "cwd/log/"  # anything under archive/ is outside
                 if not ok:
                     what = "created" if k not in before else ("deleted" if k not in after else "modified")
                     st.violation(dict(payload, signature=f"C18 file {what} outside output / log directories / {'input' if top == 'in' else top}",
